@@ -1,7 +1,7 @@
 """C06 - search information is a faithful, ordered and complete record of the trials."""
 from hypothesis import strategies as st
 
-from vlib import gen
+from vlib import gen, painters
 from vlib.agp import Run, replay_history
 from vlib.runner import fail, hyp_run
 from vlib.searchinv import check_search_data
@@ -55,11 +55,25 @@ def cases(draw):
         case["decoy"] = draw(gen.problem_recipe(dims=(1, 2, 3), styles=True))
     # an observer reads the record between the calls and asks the solver's evolvent for the preimage of stored points
     case["observer"] = draw(st.integers(0, 3)) == 0
+    if draw(st.integers(0, 15)) == 7 and params["eps"] >= 1e-12:
+        # a shipped painter is attached (it draws, and probes the objective, when the method stops)
+        case["painter"] = draw(painters.static_painter_specs(recipe["n"]))
+        if case["ops"][-1] != "solve":
+            case["ops"] = case["ops"] + ["solve"]
     return case
 
 
 def body(case):
     run = Run(case["recipe"], case["params"])
+    cleanup = painters.attach(run, case["painter"]) if case.get("painter") else None
+    try:
+        return _drive(case, run)
+    finally:
+        if cleanup:
+            cleanup()
+
+
+def _drive(case, run):
     # runs pushed to the float resolution are the ones in which a degenerate interval can send the method or the
     # queue into a loop that evaluates nothing: bound every call by executed lines
     run.line_guard = case["params"]["eps"] < 1e-12
@@ -127,6 +141,8 @@ def body(case):
         classes_extra.append("decoy-solver")
     if case.get("observer"):
         classes_extra.append("observer-queries-evolvent")
+    if case.get("painter"):
+        classes_extra.append("painter=" + case["painter"]["kind"])
     classes = classes_extra + ["N=%d" % run.n, "calls=%d" % min(steps, 5),
                "trials>=8" if len(hist) >= 8 else "trials<8", "interior-insert" if between else "no-interior-insert"]
     return nontrivial, classes, {"case": case, "trials": len(hist), "interior_inserts": between}
